@@ -36,6 +36,7 @@ Ports == {"none", "0", "80", "65535"}
 Paths == UNION {[1..n -> CharClasses] : n \in 0..MaxPath}
 (* components of the multiaddr FromURL builds, and the URL ToURL rebuilds from components *)
 Comps(u) == <<u.host>> \o (IF u.port = "none" THEN <<>> ELSE <<"tcp:" \o u.port>>) \o <<u.scheme>> \o (IF u.path = <<>> THEN <<>> ELSE <<"http-path">>)
+(* "tls" anywhere before "http" makes it https -- also with a server-name component in between (/tls/sni/<name>/http) *)
 SchemeOf(cs) == IF \E i \in 1..Len(cs) : cs[i] = "https" THEN "https"
                 ELSE IF (\E i \in 1..Len(cs) : cs[i] = "http") /\ (\E i \in 1..Len(cs) : cs[i] = "tls") THEN "https" ELSE "http"
 Back(u) == [scheme |-> SchemeOf(Comps(u)), host |-> u.host, port |-> u.port, path |-> Through(u.path)]
@@ -52,6 +53,10 @@ Sel(s, P(_)) == SelectSeq(s, P)
 FindHTTP(l) == Sel(l, LAMBDA a : a.ip # "nil" /\ IsHTTP(a))
 FilterPublic(l) == Sel(l, LAMBDA a : a.ip = "nil" \/ IsPublic(a))          \* nil entries are retained (pinned test requires it)
 Clean(l) == Sel(l, LAMBDA a : a.ip # "nil")                                  \* as a multiset: CleanPeerAddrInfo reorders
+(* MultiaddrsEqual: the two lists hold the same addresses the same number of times, in any order (lists of any length: the
+   harness also compares lists of 11+ entries that differ only in how often an address occurs)                            *)
+Occ(l, a) == Cardinality({i \in 1..Len(l) : l[i] = a})
+ListsEqual(l1, l2) == Len(l1) = Len(l2) /\ \A i \in 1..Len(l1) : Occ(l1, l1[i]) = Occ(l2, l1[i])
 
 VARIABLES kind, u, l, stage
 vars == <<kind, u, l, stage>>
